@@ -217,6 +217,8 @@ From WH Require Import proofs.ProcC02Proofs.
 (* the fields of an aggregation entry that only the cleanup tick (and the creation of the entry) writes *)
 Definition tf (e : entry) : Z * Z * option Z * bool := (first_seen e, retries e, last_retry e, settled e).
 
+Lemma lop_eq_cleanup (o : lop) : o = LCleanup \/ o <> LCleanup.
+Proof. destruct o; try (right; discriminate). left; reflexivity. Qed.
 Lemma op_eq_cleanup (o : op) : o = Cleanup \/ o <> Cleanup.
 Proof. destruct o; [right; discriminate..|left; reflexivity]. Qed.
 
@@ -716,5 +718,213 @@ Proof.
   unfold R.post in Ep. destruct (sendq_cap <=? length (l_sendq st))%nat; inversion Ep; subst.
   - right. left. reflexivity.
   - left. apply Hk. apply in_or_app. right. left. reflexivity.
+Qed.
+
+(* ---- the cleanup step of the composition, computed *)
+Lemma cleanup_all_ext : forall l p1 p2 now, db p1 = db p2 -> cur p1 = cur p2 -> cleanup_all p1 now l = cleanup_all p2 now l.
+Proof.
+  induction l as [|[h e] l IH]; intros p1 p2 now Hd Hc; [reflexivity|]. cbn [cleanup_all]. rewrite (IH p1 p2 now Hd Hc).
+  unfold in_db_of. rewrite Hd, Hc. reflexivity.
+Qed.
+
+Definition tick_of (p : pstate) (now : Z) : list (bytes * entry) * list out := cleanup_all p now (agg p).
+Definition after_tick (p : pstate) (now : Z) : pstate :=
+  {| cur := cur p; agg := fst (tick_of p now); db := db p; loopq := loopq p; clock := now |}.
+
+Lemma lcleanup_unfold st : let p := l_proc st in let now := l_now st in
+  lstep st LCleanup =
+  (fst (post_all (with_proc st (after_tick p now)) (flat_map req_of_out (snd (tick_of p now)) ++ [])),
+   [(now, EProc (SetClock (now - 1)) []); (now, EProc Cleanup (snd (tick_of p now))); (now, EProc (SetClock now) [])]
+   ++ snd (post_all (with_proc st (after_tick p now)) (flat_map req_of_out (snd (tick_of p now)) ++ []))).
+Proof.
+  cbv zeta. cbn [ReobsLoop.lstep cleanup_ops ReobsLoop.feed]. unfold ReobsLoop.pstep. cbn [Processor.step with_proc l_proc l_now].
+  unfold Processor.handle_cleanup. cbn [clock agg]. replace (l_now st - 1 + 1) with (l_now st) by lia.
+  match goal with |- context [cleanup_all ?p1 (l_now st) (agg (l_proc st))] => rewrite (cleanup_all_ext (agg (l_proc st)) p1 (l_proc st) (l_now st) eq_refl eq_refl) end.
+  fold (tick_of (l_proc st) (l_now st)). destruct (tick_of (l_proc st) (l_now st)) as [a o] eqn:Et. cbn [with_agg cur agg db loopq clock fst snd].
+  unfold reqs_of_evs. cbn [flat_map snd app]. unfold after_tick. rewrite Et. cbn [fst snd].
+  cbn [with_proc l_proc l_p2p l_disp l_sendq l_now]. destruct (post_all _ _) as [st2 e2]. reflexivity.
+Qed.
+
+Definition ckb (p : pstate) : bool := match cur p with Some _ => true | None => false end.
+
+(* what the cleanup step does to the entry of one digest, to the send queue, and what it emits *)
+Lemma lcleanup_effect st : KeysND (l_proc st) -> let st' := fst (lstep st LCleanup) in let p := l_proc st in let now := l_now st in
+  (forall h, alookup h (agg (l_proc st')) =
+     match alookup h (agg p) with
+     | None => None
+     | Some e => match cleanup_entry now (in_db_of p e) (ckb p) e with CKeep e' _ => Some e' | CDelete => None | CPanic => Some e end
+     end) /\
+  cur (l_proc st') = cur p /\ db (l_proc st') = db p /\ l_now st' = now /\ l_disp st' = l_disp st /\
+  In (now, EProc Cleanup (snd (tick_of p now))) (snd (lstep st LCleanup)) /\
+  (forall r, In r (flat_map req_of_out (snd (tick_of p now))) -> In r (l_sendq st') \/ In (now, EPost r R.PostErrChanFull) (snd (lstep st LCleanup))) /\
+  incl (l_sendq st) (l_sendq st').
+Proof.
+  intros ND. cbv zeta. rewrite lcleanup_unfold. cbn [fst snd].
+  set (rs := flat_map req_of_out (snd (tick_of (l_proc st) (l_now st))) ++ []).
+  pose proof (post_all_spec rs (with_proc st (after_tick (l_proc st) (l_now st)))) as Q. cbv zeta in Q.
+  pose proof (post_all_in rs (with_proc st (after_tick (l_proc st) (l_now st)))) as Qi.
+  pose proof (post_all_incl rs (with_proc st (after_tick (l_proc st) (l_now st)))) as Qk.
+  destruct (post_all (with_proc st (after_tick (l_proc st) (l_now st))) rs) as [st2 e2]. cbn [fst snd with_proc l_proc l_now l_sendq l_disp] in *.
+  destruct Q as ((_ & Q2 & Q3 & Q4) & _). rewrite <- Q2, <- Q3, <- Q4. cbn [after_tick cur db agg]. repeat apply conj; try reflexivity.
+  - intros h. cbn [with_proc l_proc after_tick agg]. unfold tick_of. rewrite (cleanup_all_lookup (l_proc st) (l_now st) h (agg (l_proc st)) ND). reflexivity.
+  - right. left. reflexivity.
+  - intros r Hr. destruct (Qi r) as [A|A]; [unfold rs; apply in_or_app; left; exact Hr|left; exact A|right; right; right; right; exact A].
+  - exact Qk.
+Qed.
+
+(* ---- the invariant of composed histories *)
+Definition LInv (st : lnode) : Prop :=
+  KeysND (l_proc st) /\ (forall h e L, alookup h (agg (l_proc st)) = Some e -> last_retry e = Some L -> L <= l_now st).
+
+Lemma cleanup_entry_lr now indb ck e e' o : cleanup_entry now indb ck e = CKeep e' o -> last_retry e' = last_retry e \/ last_retry e' = Some now.
+Proof.
+  unfold cleanup_entry. destruct (negb (submitted e) && _ && _ && _); [discriminate|].
+  destruct (negb (settled e) && _); [destruct (_ || _ || _); [intros X; inversion X; left; reflexivity|discriminate]|].
+  destruct (submitted e && _); [discriminate|]. destruct (negb (submitted e) && _); [discriminate|].
+  destruct (negb (submitted e) && _ && _).
+  - destruct (our_msg e); [intros X; inversion X; right; reflexivity|destruct (_ && _); discriminate].
+  - intros X; inversion X; left; reflexivity.
+Qed.
+
+Lemma lstep_proc st o : l_proc (fst (lstep st o)) = fst (prun (l_proc st) (pops (snd (lstep st o)))).
+Proof. destruct (lstep_wf st o) as [_ P]. unfold pwf in P. rewrite P. reflexivity. Qed.
+
+Lemma lstep_inv st o : LInv st -> l_now st <= l_now (fst (lstep st o)) -> LInv (fst (lstep st o)).
+Proof.
+  intros [ND LR] Hle. split; [rewrite lstep_proc; apply prun_keysnd; exact ND|]. intros h e' L Hl Hlr.
+  destruct (lop_eq_cleanup o) as [->|Hn].
+  - destruct (lcleanup_effect st ND) as (A & _ & _ & B & _). rewrite A in Hl. rewrite B. destruct (alookup h (agg (l_proc st))) as [e|] eqn:E0; [|discriminate].
+    destruct (cleanup_entry _ _ _ e) as [e2 o2| |] eqn:Ec; [|discriminate|]; inversion Hl; subst.
+    + destruct (cleanup_entry_lr _ _ _ _ _ _ Ec) as [X|X]; rewrite X in Hlr; [eapply LR; eassumption|inversion Hlr; lia].
+    + eapply LR; eassumption.
+  - rewrite lstep_proc in Hl. destruct (prun_tf_back _ _ _ _ (lstep_no_cleanup st o Hn) Hl) as [(e & H0 & T)|(_ & X & _)]; [|congruence].
+    inversion T as [[T1 T2 T3 T4]]. rewrite T3 in Hlr. specialize (LR _ _ _ H0 Hlr). lia.
+Qed.
+
+Lemma lrun_inv : forall H st, LInv st -> lmono (l_now st) H -> LInv (fst (lrun st H)).
+Proof.
+  induction H as [|o H IH]; intros st HI Hm; [exact HI|]. rewrite lrun_cons. cbn [fst]. apply lmono_step in Hm as [Hle Hm]. apply IH; [apply lstep_inv; assumption|exact Hm].
+Qed.
+
+Lemma linit_inv : LInv linit.
+Proof. split; [constructor|intros h e L X; discriminate X]. Qed.
+
+(* ================================================================== Part 4b: the retry stream of one pending message *)
+(* "a message the node signed lacks quorum and its retry budget is not spent": entry of digest h, own observation and VAA present,
+   not submitted, settled, retried fewer times than the budget, no quorum VAA in the store, at least five minutes old;
+   c / tx = emitter chain (as the request carries it) and transaction of the observation *)
+Definition pending_at (st : lnode) (h : bytes) (c : Z) (tx : bytes) : Prop :=
+  exists e o v, alookup h (agg (l_proc st)) = Some e /\ pending_own e o v /\ settled e = true /\ retries e < proc_own_retry_budget /\
+    in_db_of (l_proc st) e = false /\ txh e = tx /\ echain v mod 2 ^ 32 = c /\ first_seen e + proc_retry_after_ns <= l_now st.
+(* the cleanup step taken in st retries the entry of h *)
+Definition lretried (st : lnode) (h : bytes) : bool := retried_by (l_proc st) (l_now st) h.
+
+Lemma pending_tick st h c tx : pending_at st h c tx -> exists e o,
+  alookup h (agg (l_proc st)) = Some e /\ in_db_of (l_proc st) e = false /\
+  cleanup_entry (l_now st) false (ckb (l_proc st)) e =
+    (if retry_due (l_now st) e then CKeep (set_retried e (l_now st)) [ObsReq c (txh e); SendObs o] else CKeep e []) /\
+  txh e = tx /\
+  (retry_due (l_now st) e = match last_retry e with None => true | Some L => proc_retry_ns <=? l_now st - L end).
+Proof.
+  intros (e & o & v & Hl & Hp & Hs & Hr & Hd & Ht & Hc & Ha). exists e, o. split; [exact Hl|]. split; [exact Hd|]. split; [|split; [exact Ht|]].
+  - rewrite (own_pending_retry_iff (l_now st) (ckb (l_proc st)) e o v Hp Hs Hr). rewrite Hc. reflexivity.
+  - unfold retry_due, age, sec, proc_retry_after_ns, proc_retry_ns in *. destruct (Z.leb_spec (300 * 1000000000) (l_now st - first_seen e)); [reflexivity|lia].
+Qed.
+
+Lemma lretried_spec st h c tx : pending_at st h c tx -> exists e o, alookup h (agg (l_proc st)) = Some e /\ txh e = tx /\
+  lretried st h = retry_due (l_now st) e /\
+  (retry_due (l_now st) e = true -> In (ObsReq c tx) (snd (tick_of (l_proc st) (l_now st))) /\
+     cleanup_entry (l_now st) (in_db_of (l_proc st) e) (ckb (l_proc st)) e = CKeep (set_retried e (l_now st)) [ObsReq c tx; SendObs o]) /\
+  (retry_due (l_now st) e = false -> cleanup_entry (l_now st) (in_db_of (l_proc st) e) (ckb (l_proc st)) e = CKeep e []).
+Proof.
+  intros Hp. destruct (pending_tick _ _ _ _ Hp) as (e & o & Hl & Hd & Hc & Ht & _). exists e, o. split; [exact Hl|]. split; [exact Ht|].
+  rewrite Hd. fold (ckb (l_proc st)). split; [|split].
+  - unfold lretried, retried_by. rewrite Hl, Hd. fold (ckb (l_proc st)). rewrite Hc. destruct (retry_due (l_now st) e); cbn [set_retried retries]; [apply Z.ltb_lt; lia|apply Z.ltb_irrefl].
+  - intros Hdue. rewrite Hc, Hdue, Ht. split; [|reflexivity]. apply alookup_In in Hl.
+    pose proof (cleanup_all_entry (l_proc st) (l_now st) (agg (l_proc st)) h e Hl) as X. rewrite Hd in X. fold (ckb (l_proc st)) in X. rewrite Hc, Hdue, Ht in X.
+    destruct X as [_ X]. apply X. left. reflexivity.
+  - intros Hdue. rewrite Hc, Hdue. reflexivity.
+Qed.
+
+(* LEMMA A: a cleanup tick at which the retry is due finds it done: that tick retries, unless an earlier one already did *)
+Lemma retry_by_due_tick h c tx : forall H1 st0, LInv st0 -> lmono (l_now st0) (H1 ++ [LCleanup]) ->
+  (forall s, In (s, LCleanup) (lstates st0 (H1 ++ [LCleanup])) -> pending_at s h c tx) ->
+  (forall e L, alookup h (agg (l_proc st0)) = Some e -> last_retry e = Some L -> L + proc_retry_ns <= l_now (fst (lrun st0 H1))) ->
+  exists s, In (s, LCleanup) (lstates st0 (H1 ++ [LCleanup])) /\ lretried s h = true.
+Proof.
+  induction H1 as [|o H1 IH]; intros st0 HI Hm Hp HQ.
+  - exists st0. split; [left; reflexivity|]. assert (P0 : pending_at st0 h c tx) by (apply Hp; left; reflexivity).
+    destruct (lretried_spec _ _ _ _ P0) as (e & o & Hl & _ & Hr & _). rewrite Hr. destruct (pending_tick _ _ _ _ P0) as (e' & _ & Hl' & _ & _ & _ & Hdue).
+    assert (e' = e) by congruence. subst e'. rewrite Hdue. destruct (last_retry e) as [L|] eqn:El; [|reflexivity].
+    specialize (HQ _ _ Hl El). cbn [ReobsLoop.lrun fst] in HQ. apply Z.leb_le. lia.
+  - cbn [app] in Hm, Hp. pose proof (lmono_step _ _ _ Hm) as [Hle Hm1]. set (st1 := fst (lstep st0 o)) in *.
+    assert (HI1 : LInv st1) by (apply lstep_inv; assumption).
+    assert (Hp1 : forall s, In (s, LCleanup) (lstates st1 (H1 ++ [LCleanup])) -> pending_at s h c tx) by (intros s Hs; apply Hp; right; exact Hs).
+    assert (Hfin : l_now (fst (lrun st0 (o :: H1))) = l_now (fst (lrun st1 H1))) by (rewrite lrun_cons; reflexivity).
+    assert (Hgo : (forall e L, alookup h (agg (l_proc st1)) = Some e -> last_retry e = Some L -> L + proc_retry_ns <= l_now (fst (lrun st1 H1))) ->
+                  exists s, In (s, LCleanup) (lstates st0 ((o :: H1) ++ [LCleanup])) /\ lretried s h = true).
+    { intros HQ1. destruct (IH st1 HI1 Hm1 Hp1 HQ1) as (s & Hs & Hr). exists s. split; [right; exact Hs|exact Hr]. }
+    destruct (lop_eq_cleanup o) as [->|Hn].
+    + assert (P0 : pending_at st0 h c tx) by (apply Hp; left; reflexivity).
+      destruct (lretried st0 h) eqn:Er; [exists st0; split; [left; reflexivity|exact Er]|].
+      destruct (lretried_spec _ _ _ _ P0) as (e & o & Hl & _ & Hr & _ & Hnd). rewrite Er in Hr. symmetry in Hr. specialize (Hnd Hr).
+      apply Hgo. intros e1 L Hl1 El1. destruct HI as [ND _]. destruct (lcleanup_effect st0 ND) as (A & _). unfold st1 in Hl1. rewrite A, Hl, Hnd in Hl1. inversion Hl1; subst e1.
+      rewrite <- Hfin. eapply HQ; eassumption.
+    + apply Hgo. intros e1 L Hl1 El1. unfold st1 in Hl1. rewrite lstep_proc in Hl1.
+      destruct (prun_tf_back _ _ _ _ (lstep_no_cleanup st0 o Hn) Hl1) as [(e & H0 & T)|(_ & X & _)]; [|congruence].
+      inversion T as [[T1 T2 T3 T4]]. rewrite T3 in El1. rewrite <- Hfin. eapply HQ; eassumption.
+Qed.
+
+(* ---- the send queue, step by step *)
+Lemma lstep_sendq st o :
+  match o with
+  | LCleanup | LAdmin _ => incl (l_sendq st) (l_sendq (fst (lstep st o)))
+  | LPump => match l_sendq st with
+             | [] => l_sendq (fst (lstep st o)) = []
+             | q :: qs => l_sendq (fst (lstep st o)) = qs /\ exists s x, In (l_now st, EDisp s (R.Req q (l_now st)) x) (snd (lstep st o))
+             end
+  | _ => l_sendq (fst (lstep st o)) = l_sendq st
+  end.
+Proof.
+  destruct o as [t| |q| |from m| |c|e]; cbn [ReobsLoop.lstep].
+  - open_feed F. destruct F as ((_ & _ & F & _) & _). cbn [fst l_sendq] in *. congruence.
+  - open_feed F. destruct F as ((_ & _ & F & _) & _). match goal with |- context [post_all ?s ?rs] => pose proof (post_all_incl rs s) as Q; destruct (post_all s rs) end. cbn [fst] in *. rewrite F. exact Q.
+  - match goal with |- context [post_all ?s ?rs] => pose proof (post_all_incl rs s) as Q; destruct (post_all s rs) end. exact Q.
+  - destruct (l_sendq st) as [|q qs] eqn:Eq; [cbn; exact Eq|]. cbn [ReobsLoop.gstep G.loop_step local_reqs_of flat_map app].
+    cbn [ReobsLoop.dispatch_all]. unfold dispatch. cbn [with_p2p with_sendq l_disp l_now]. destruct (R.step (l_disp st) (R.Req q (l_now st))) as [d' x]. cbn [fst snd with_disp l_sendq].
+    split; [reflexivity|]. exists (l_disp st), x. left. reflexivity.
+  - destruct (gstep (l_p2p st) (G.LRecv from m)) as [g' outs]. open_feed F. destruct F as ((_ & _ & F & _) & _). open_dall D. destruct D as ((_ & _ & D & _) & _).
+    cbn [fst with_p2p l_sendq] in *. congruence.
+  - unfold dispatch. destruct (R.step _ _). reflexivity.
+  - destruct (R.step (l_disp st) (R.Drain c)) as [d' x]. destruct x as [c0| | | | | |[r|]]; try reflexivity.
+    open_feed F. destruct F as ((_ & _ & F & _) & _). cbn [fst with_disp l_sendq] in *. congruence.
+  - open_feed F. destruct F as ((_ & _ & F & _) & _). cbn [fst] in *. rewrite <- F. destruct e; reflexivity.
+Qed.
+
+(* p2p's request goroutine keeps up: whenever the clock is read anew, and at the end of the history, obsvReqSendC is empty *)
+Definition drained (st : lnode) (H : list lop) : Prop :=
+  (forall s t, In (s, LClock t) (lstates st H) -> l_sendq s = []) /\ l_sendq (fst (lrun st H)) = [].
+
+(* LEMMA B: then a request waiting in obsvReqSendC reaches the local dispatcher at the clock reading at which it waits *)
+Lemma pumped : forall H st r, In r (l_sendq st) -> drained st H ->
+  exists s x, In (l_now st, EDisp s (R.Req r (l_now st)) x) (snd (lrun st H)).
+Proof.
+  induction H as [|o H IH]; intros st r Hin [D1 D2]; [cbn in D2; rewrite D2 in Hin; destruct Hin|].
+  assert (Dr : drained (fst (lstep st o)) H).
+  { split; [intros s t Hs; apply (D1 s t); right; exact Hs|rewrite lrun_cons in D2; exact D2]. }
+  rewrite lrun_cons. cbn [snd]. pose proof (lstep_sendq st o) as Q. pose proof (lstep_now st o) as N.
+  assert (Hgo : In r (l_sendq (fst (lstep st o))) -> l_now (fst (lstep st o)) = l_now st ->
+                exists s x, In (l_now st, EDisp s (R.Req r (l_now st)) x) (snd (lstep st o) ++ snd (lrun (fst (lstep st o)) H))).
+  { intros Hr Hn. destruct (IH _ _ Hr Dr) as (s & x & Hx). rewrite Hn in Hx. exists s, x. apply in_or_app. right. exact Hx. }
+  destruct o as [t| |q| |from m| |c|e]; try (apply Hgo; [rewrite Q; exact Hin|exact N]); try (apply Hgo; [apply Q; exact Hin|exact N]).
+  - rewrite (D1 st t) in Hin by (left; reflexivity). destruct Hin.
+  - destruct (l_sendq st) as [|q qs]; [destruct Hin|]. destruct Q as [Q (s & x & Hx)]. destruct Hin as [->|Hin].
+    + exists s, x. apply in_or_app. left. exact Hx.
+    + apply Hgo; [rewrite Q; exact Hin|exact N].
+Qed.
+
+Lemma drained_suffix st H1 H2 : drained st (H1 ++ H2) -> drained (fst (lrun st H1)) H2.
+Proof.
+  intros [D1 D2]. split; [intros s t Hs; apply (D1 s t); rewrite lstates_app; apply in_or_app; right; exact Hs|rewrite lrun_app_fst in D2; exact D2].
 Qed.
 End Loop2.
